@@ -431,6 +431,17 @@ func (t *FnTrans) modItem(x *Expr, env *Env, f func(comp, sort, ref string)) {
 		es := t.sortOf(u.Elem())
 		f("E."+mangle(es), "(Array Int (Array Int "+es+"))", app("s.base", v.S))
 		return
+	case x.Op == "call" && x.Name == "cells":
+		// every cell of the given Go type (pointer targets of that type)
+		T := env.typeArg(x.Args[0])
+		p := t.ptrFromRef("0", T)
+		t.modPtrWhole(p, f)
+		return
+	case x.Op == "call" && x.Name == "allelems":
+		T := env.typeArg(x.Args[0])
+		es := t.sortOf(T)
+		f("E."+mangle(es), "(Array Int (Array Int "+es+"))", "")
+		return
 	case x.Op == "call" && x.Name == "map":
 		v := env.eval(x.Args[0])
 		mt, ok := env.resolveT(v.T).Underlying().(*types.Map)
@@ -537,6 +548,11 @@ func (t *FnTrans) modPtrWhole(p *Ptr, f func(comp, sort, ref string)) {
 		for i := 0; i < st.NumFields(); i++ {
 			t.modPtrWhole(t.fieldPtr(p, i), f)
 		}
+		return
+	}
+	if p.Kind == "elemrow" {
+		at := t.resolve(p.T).Underlying().(*types.Array)
+		f(p.Comp, "(Array Int (Array Int "+t.sortOf(at.Elem())+"))", "")
 		return
 	}
 	t.noteCompType(p, p.T)
